@@ -140,3 +140,65 @@ Print Assumptions C05_kernel_enoughVote.
 Theorem C05_kernel_params : Link_C05.kernel_params_pinned.
 Proof. exact Link_C05.kernel_params_ok. Qed.
 Print Assumptions C05_kernel_params.
+
+(* ---- fast sync on a node that already holds votes (Model_FastSync.v,
+   Model_VoteSet.v): whatever part set the received list names, a consumed block
+   has, after the list's votes were added to the precommit vote set of that
+   round, more than two thirds of the validator slots holding a precommit for ONE
+   non-nil decision whose part set is the delivered block's ---- *)
+From Goloop Require Import Model_VoteSet Model_FastSync Proofs_FastSync.
+
+Theorem C05_fastsync_history_sound :
+  forall n prior h r dl good idxs tss,
+    fs_process n prior h r dl good idxs tss = true ->
+    exists is_ s d,
+      idxs = Some is_ /\
+      run n (prior ++ list_ops h r dl is_ tss) = Some s /\
+      d <> 0%N /\ good d = true /\
+      (3 * votes_for s d > 2 * Z.of_nat n)%Z.
+Proof. exact fs_process_sound. Qed.
+Print Assumptions C05_fastsync_history_sound.
+
+Theorem C05_fastsync_history_complete :
+  forall n prior h r dl good is_ tss s d,
+    run n (prior ++ list_ops h r dl is_ tss) = Some s ->
+    (3 * votes_for s d > 2 * Z.of_nat n)%Z -> d <> 0%N ->
+    fs_process n prior h r dl good (Some is_) tss = good d.
+Proof. exact fs_process_complete. Qed.
+Print Assumptions C05_fastsync_history_complete.
+
+(* ---- kernel link for the fast-sync threshold: hasOverTwoThirds and the test of
+   getOverTwoThirdsRoundDecisionDigest are re-generated from consensus/voteset.go
+   on every run; the threshold inside C05_fastsync_accept_iff and the vote-set
+   model behind C05_fastsync_history_sound ARE those tests ---- *)
+Theorem C05_kernel_fastsync_threshold : forall c n : nat,
+  (Z.of_nat n <= 4611686018427387903)%Z ->
+  Nat.ltb (n * 2 / 3) c = overTwoThirdsDecision (Z.of_nat c) (Z.of_nat n) /\
+  Nat.ltb (n * 2 / 3) c = hasOverTwoThirds (Z.of_nat c) (Z.of_nat n).
+Proof. exact fs_threshold_is_kernels. Qed.
+Print Assumptions C05_kernel_fastsync_threshold.
+
+Theorem C05_kernel_fastsync_accept :
+  forall (sigT addrT : Type) (addr_eqb : addrT -> addrT -> bool)
+         (recover : vote_msg -> sigT -> option addrT),
+  forall height round bid ps real (vals : list addrT) (items : list (Z * sigT)),
+    (Z.of_nat (length vals) <= 4611686018427387903)%Z ->
+    fs_accept addr_eqb recover height round bid ps real vals items =
+    match indices addr_eqb recover (item_msg height round bid ps) vals items with
+    | None => false
+    | Some idxs =>
+        overTwoThirdsDecision (Z.of_nat (length (dedup idxs))) (Z.of_nat (length vals)) &&
+        ps_id_matches ps real
+    end.
+Proof. exact @fs_accept_kernel. Qed.
+Print Assumptions C05_kernel_fastsync_accept.
+
+Theorem C05_kernel_voteset_model : forall c n : Z,
+  (0 <= n <= 4611686018427387903)%Z ->
+  over23 c n = overTwoThirdsDecision c n /\ over23 c n = hasOverTwoThirds c n.
+Proof. exact over23_is_kernels. Qed.
+Print Assumptions C05_kernel_voteset_model.
+
+Theorem C05_kernel_fastsync_params : fs_kernel_params_pinned.
+Proof. exact fs_kernel_params_ok. Qed.
+Print Assumptions C05_kernel_fastsync_params.
